@@ -471,6 +471,7 @@ type Contract struct {
 	Ghost    []*Clause // ghost updates at call sites: "after callee: $x = expr"
 	Asserts  []*Clause
 	Pure     bool
+	Trusted  bool // contract is assumed, the body is not verified against it (listed in the evidence)
 }
 
 type Axiom struct {
@@ -488,10 +489,11 @@ type SpecFile struct {
 	FuncTypes map[string]*Contract // keyed by role name
 	Ghosts    map[string]string    // ghost global name -> type
 	GhostList []string
+	TypeInvs  map[string]string // named struct type -> spec function (type invariant)
 }
 
 func newSpecFile() *SpecFile {
-	return &SpecFile{Funcs: map[string]*SpecFunc{}, Contracts: map[string]*Contract{}, FuncTypes: map[string]*Contract{}, Ghosts: map[string]string{}}
+	return &SpecFile{Funcs: map[string]*SpecFunc{}, Contracts: map[string]*Contract{}, FuncTypes: map[string]*Contract{}, Ghosts: map[string]string{}, TypeInvs: map[string]string{}}
 }
 
 // parseLabel parses "[C12,C01] name: rest" prefix pieces.
@@ -609,6 +611,13 @@ func (sf *SpecFile) load(path string) error {
 			sf.Ghosts[fs[0]] = fs[1]
 			sf.GhostList = append(sf.GhostList, fs[0])
 			cur = nil
+		case "typeinv":
+			fs := strings.Fields(rest)
+			if len(fs) != 2 {
+				return fail(fmt.Errorf("typeinv <Type> <specfunc>"))
+			}
+			sf.TypeInvs[fs[0]] = fs[1]
+			cur = nil
 		case "func", "functype":
 			props, _, name := parseTagsLabel(rest)
 			// allow "Name [C1,C2]" order too
@@ -670,6 +679,13 @@ func (sf *SpecFile) load(path string) error {
 				cur.Ghost = append(cur.Ghost, cl)
 				continue
 			}
+			if word == "assume" || word == "assert" {
+				// assume|assert [props] label: expr @ callee#k   (checked/assumed just before the k-th call of callee)
+				if i := strings.LastIndex(body, "@"); i >= 0 {
+					cl.Site = strings.TrimSpace(body[i+1:])
+					body = strings.TrimSpace(body[:i])
+				}
+			}
 			cl.Props, cl.Label, body = parseTagsLabel(body)
 			cl.Src = body
 			e, err := parseSpec(body)
@@ -704,6 +720,11 @@ func (sf *SpecFile) load(path string) error {
 			}
 			cur.Pure = true
 			cur.HasMod = true
+		case "trusted":
+			if cur == nil {
+				return fail(fmt.Errorf("clause outside func"))
+			}
+			cur.Trusted = true
 		case "opt":
 			if cur == nil {
 				return fail(fmt.Errorf("clause outside func"))
